@@ -192,6 +192,28 @@ def r12_2(cx):
                     cx.check(rel[0] == 'Gt', 'neighbours-strict', c, c.loc(pos.bb), 'witness returned exactly where left > right',
                              fail_detail='the neighbour comparison that rejects is `%s`, not a strict `>`: equal neighbours must be accepted' % rel[0])
     if not found:
+        # the scan spelled windows(2)..find(|(_, pair)| pair[0] > pair[1]): the predicate handed to find is the comparison
+        for c in cls:
+            for cs in c.calls('Iterator::find'):
+                pr = closure_of(prog, cs.arg(1))
+                if pr is None or not cs.arg(0).has_call('windows'):
+                    continue
+                rel = as_relation((pr.local_expr(0, []).strip(), True))
+                if rel is None:
+                    continue
+                op, a, b = rel
+
+                def idx(e):
+                    ix = [n.args[1].const_int() for n in e.walk() if n.kind == 'call' and n.op.endswith('::index') and len(n.args) == 2 and n.args[1].is_const_int()]
+                    ix += [n.b.const_int() for n in e.walk() if n.kind == 'proj' and n.op == 'index' and n.b is not None and n.b.is_const_int()]
+                    return ix[0] if len(ix) == 1 else None
+                if idx(a) == 1 and idx(b) == 0:
+                    op = {'Gt': 'Lt', 'Lt': 'Gt', 'Ge': 'Le', 'Le': 'Ge'}.get(op, op)
+                    a, b = b, a
+                found = True
+                cx.check(op == 'Gt' and idx(a) == 0 and idx(b) == 1, 'neighbours-strict', pr, None, 'the scan stops at the first window with pair[0] > pair[1]',
+                         fail_detail='the neighbour comparison that rejects is `%s` over window elements %s, %s: not a strict `>` of the left over the right' % (op, idx(a), idx(b)))
+    if not found:
         cx.fail('neighbours-strict', fn, None, 'no `left > right` comparison guards the non-monotonic witness')
     cx.check(True, 'ok-is-the-view', fn, fn.loc(okb), '%d Ok return(s), each behind every gate' % len(okbs))
 
